@@ -170,7 +170,9 @@ def shaper_kwargs(case, graph_kwargs=None):
     if cfg["nsDict"]:
         kw["namespaces_dict"] = {ns: pre for ns, pre in cfg["nsDict"]}
     if cfg["instProp"] != M.RDF_TYPE:
-        kw["instantiation_property"] = cfg["instProp"]
+        # (the instantiation property is accepted as a full or as a prefixed IRI)
+        ips = _prefixed(cfg["instProp"], cfg["nsDict"]) if cfg.get("instPropSpelling") == "prefixed" else None
+        kw["instantiation_property"] = ips or cfg["instProp"]
     if cfg["mode"] in ("all", "mixed"):
         kw["all_classes_mode"] = True
     if cfg["mode"] == "classes":
@@ -355,8 +357,17 @@ def run_case(case, graph_kwargs=None, want_text=False):
                 fh.write(M.to_nt(M.from_json_graph(case["graph"])))
             with open(os.path.join(d, "i.nt"), "w", encoding="utf8") as fh:
                 fh.write(M.to_nt(M.from_json_graph(case["cfg"]["instDoc"])))
-            return run_case(case, {"graph_file_input": os.path.join(d, "g.nt"), "instances_file_input": os.path.join(d, "i.nt"),
-                                   "input_format": C.NT}, want_text)
+            gk = {"instances_file_input": os.path.join(d, "i.nt"), "input_format": C.NT}
+            how = case.get("instGraphAs", "file")      # the graph itself: a file, a list of files, a string, an rdflib Graph
+            if how == "raw":
+                gk["raw_graph"] = M.to_nt(M.from_json_graph(case["graph"]))
+            elif how == "files":
+                gk["graph_list_of_files_input"] = [os.path.join(d, "g.nt")]
+            elif how == "rdflib" and not any(t[0] == "BNode" for tr in M.from_json_graph(case["graph"]) for t in (tr[0], tr[2])):
+                gk["rdflib_graph"] = M.to_rdflib(M.from_json_graph(case["graph"]))
+            else:
+                gk["graph_file_input"] = os.path.join(d, "g.nt")
+            return run_case(case, gk, want_text)
         finally:
             shutil.rmtree(d, ignore_errors=True)
     from shexer.shaper import Shaper
@@ -373,8 +384,9 @@ def run_case(case, graph_kwargs=None, want_text=False):
         return res
     fmt = C.SHEXC if cfg["format"] == "shexc" else C.SHACL_TURTLE
     thr = cfg["thr"][0] / cfg["thr"][1]
-    for b in case.get("before", []):      # earlier calls on the same Shaper with other thresholds; only the last call is judged
-        call_guarded(lambda: shaper.shex_graph(string_output=True, acceptance_threshold=b[0] / b[1], output_format=fmt), timeout=60)
+    for b in case.get("before", []):      # earlier calls on the same Shaper with other thresholds ([num, den] or a float); only the last call is judged
+        bt = (b[0] / b[1]) if isinstance(b, list) else float(b)
+        call_guarded(lambda: shaper.shex_graph(string_output=True, acceptance_threshold=bt, output_format=fmt), timeout=60)
     if cfg.get("sink") == "file":      # output file instead of returned string
         import tempfile
         import shutil
